@@ -142,6 +142,13 @@ func (x *Exec) Verify() {
 		defer x.catch("held-lock seeding")
 		x.seedHeldLocks(cfg)
 	}()
+	func() {
+		defer x.catch("modifies clause")
+		x.resolveFrame(cfg)
+	}()
+	if x.abstract {
+		return
+	}
 	cfg.old = cfg.st.clone()
 	// vacuity canary: the precondition must be satisfiable
 	x.canary(cfg, "pre-satisfiable", token.NoPos)
@@ -243,6 +250,7 @@ func (x *Exec) runPath(cfg *Config) (forks []*Config) {
 			return forks
 		}
 		f := cfg.top()
+		x.curCfg = cfg
 		if f.unwinding {
 			if done := x.unwindStep(cfg, f); done {
 				return forks
@@ -771,6 +779,9 @@ func (x *Exec) storeStruct(st *State, ref Term, styp types.Type, v SV) {
 			continue // arrays inside structs are not modelled; reads are unsupported
 		}
 		name, arr, _ := x.fieldArr(st, styp, i)
+		if x.curCfg != nil {
+			x.storeInFrame(x.curCfg, name, ref)
+		}
 		st.heap[name] = Store(arr, ref, x.tvFor(st, v.F[i]))
 	}
 }
@@ -804,15 +815,69 @@ func (x *Exec) store(cfg *Config, ptr Val, v Val, vt types.Type) {
 		}
 		unsupported("store to global %s", a.G.Name())
 	case aElem:
+		x.storeInFrame(cfg, a.Arr, a.Base)
 		arr := x.heapGet(st, a.Arr, SArr(SInt, SArr(x.idxSort(), x.sortOf(vt))))
 		st.heap[a.Arr] = Store(arr, a.Base, Store(Select(arr, a.Base), a.Idx, val))
 	default:
 		if _, isTV := ptr.(TV); isTV {
 			x.nilcheck(cfg, a.Base, "pointer store", token.NoPos)
 		}
+		x.storeInFrame(cfg, a.Arr, a.Base)
 		arr := x.heapGet(st, a.Arr, SArr(SInt, x.sortOf(vt)))
 		st.heap[a.Arr] = Store(arr, a.Base, val)
 	}
+}
+
+// resolveFrame evaluates the modifies clause in the entry state.
+func (x *Exec) resolveFrame(cfg *Config) {
+	x.frameLocs = map[string][]Term{}
+	x.frameWhole = map[string]bool{}
+	env := x.entryEnv(cfg)
+	for _, t := range x.resolveModifies(env, x.c) {
+		if t.loc == nil {
+			x.frameWhole[t.arr] = true
+		} else {
+			x.frameLocs[t.arr] = append(x.frameLocs[t.arr], *t.loc)
+		}
+	}
+	x.frameReady = true
+}
+
+// preexisting(o): o denotes an object that existed when the function was
+// entered (top-level references are positive; embedded sub-objects are
+// negative and owned by a positive root).
+func (x *Exec) preexisting(o Term) Term {
+	top0 := x.d.Const("H0!$top", SInt)
+	root := x.d.Fun("subroot", []Sort{SInt}, SInt)
+	return Or(And(Gt(o, IntLit(0)), Le(o, top0)), And(Lt(o, IntLit(0)), Gt(root(o), IntLit(0)), Le(root(o), top0)))
+}
+
+// mayWrite(name, base): the modifies clause permits writing array `name` at
+// object `base` (or the object was allocated by this invocation).
+func (x *Exec) mayWrite(name string, base Term) Term {
+	if x.frameWhole[name] {
+		return True
+	}
+	cs := []Term{Not(x.preexisting(base))}
+	for _, l := range x.frameLocs[name] {
+		cs = append(cs, Eq(base, l))
+	}
+	return Or(cs...)
+}
+
+// storeInFrame: inside loops the havoc at the loop head trusts the modifies
+// clause, so every write in a loop body must stay within it.
+func (x *Exec) storeInFrame(cfg *Config, name string, base Term) {
+	if !x.frameReady || len(cfg.loops) == 0 || len(cfg.frames) == 0 || strings.HasPrefix(name, "$") {
+		return
+	}
+	if x.c != nil && x.c.Options["noframe"] == "true" {
+		return
+	}
+	if x.frameWhole[name] {
+		return
+	}
+	x.oblige(cfg, "store-in-frame", name, x.mayWrite(name, base), nil, token.NoPos)
 }
 
 // ---------------------------------------------------------------------------
